@@ -469,6 +469,12 @@ int main(int argc, char** argv)
       if (res.find("\"ok\":false") != std::string::npos)
         res.insert(res.size() - 1, std::string(",\"user_locator_unchanged\":") + (user_loc.verif_contents() == before ? "true" : "false"));
     }
+    else if (cmd == "destroy")
+    {
+      // the shell goes out of scope: whatever it owns goes with it, what the user owns stays as it is
+      sh.reset(); COMP::last() = nullptr; reset_peers();
+      res = std::string("{\"ok\":true,\"user_pump_stopped\":") + (user_pump && user_pump->verif_stopped() ? "true" : "false") + "}";
+    }
     else if (cmd == "final")
     {
       try { sh->FinalConstruct(&parent_meta);
